@@ -217,7 +217,8 @@ theorem step_map (sk : Skeleton) (s : State) (a : Act) :
     have e1 : (mapState g s).crashed = s.crashed := rfl
     have e3 : (mapState g s).linkCtxDone = s.linkCtxDone := rfl
     rw [e1, e3]
-    by_cases hc : s.crashed = false ∧ sk.stHandoffGuarded = true ∧ s.linkCtxDone = true
+    by_cases hc : s.crashed = false ∧ sk.stHandoffGuarded = true ∧ s.linkCtxDone = true ∧
+        signal = sk.stAbortClosesDone
     · rw [if_pos hc, if_pos hc]
       have e2 : (mapState g s).dec = s.dec.map g := rfl
       rw [e2]
